@@ -127,21 +127,24 @@ def ints(ctx, extra_random):
 # ---------------------------------------------------------------- ACK frames
 
 
-def ack_check(ctx, ranges, delay):
-    """ranges: ascending list of (start, stop) half-open, disjoint, non-adjacent."""
+def ack_check(ctx, ranges, delay, max_ranges=None):
+    """ranges: ascending list of (start, stop) half-open, disjoint, non-adjacent.  With max_ranges the encoder keeps the ranges with the highest
+    packet numbers only; the frame must then be the encoding of exactly those."""
     from aioquic.buffer import Buffer
     from aioquic.quic.packet import pull_ack_frame, push_ack_frame
     from aioquic.quic.rangeset import RangeSet
     from vlib import refquic as R
 
     rs = RangeSet([range(a, b) for a, b in ranges])
-    case = {"kind": "ack", "ranges": ranges, "delay": delay}
+    case = {"kind": "ack", "ranges": ranges, "delay": delay, "max_ranges": max_ranges}
     buf = Buffer(capacity=16 + 16 * len(ranges) + 16)
     try:
-        n = push_ack_frame(buf, rs, delay)
+        n = push_ack_frame(buf, rs, delay) if max_ranges is None else push_ack_frame(buf, rs, delay, max_ranges)
     except Exception as e:
-        ctx.violation("ack-encode-raised", "push_ack_frame(%r, %d) raised %r" % (ranges, delay, e), case)
+        ctx.violation("ack-encode-raised", "push_ack_frame(%r, %d, max_ranges=%r) raised %r" % (ranges, delay, max_ranges, e), case)
         return
+    if max_ranges is not None:
+        ranges = ranges[-max_ranges:]
     body = buf.data
     if n != len(ranges):
         ctx.violation("ack-range-count", "push_ack_frame returned %d for %d ranges" % (n, len(ranges)), case)
@@ -187,6 +190,9 @@ def acks_exhaustive(ctx, U, part, nparts):
         delay = (0, 1, 63, 64, 16383, 16384)[mask % 6]
         ctx.case(("ack", mask), nontrivial=len(ranges) > 1, classes=["ack:exhaustive"])
         ack_check(ctx, ranges, delay)
+        if len(ranges) >= 2:
+            for mr in sorted({1, len(ranges) - 1, len(ranges)}):
+                ack_check(ctx, ranges, delay, mr)
         if ctx.want_sample():
             ctx.sample({"ack_ranges": ranges, "delay": delay})
     ctx.extra["exhaustive"] = True
@@ -224,6 +230,8 @@ def acks_random(ctx, examples, shard):
             ranges = [(0, 1)]
         ctx.case(("ackr", tuple(ranges), delay), nontrivial=len(ranges) > 1 or ranges[0][0] > 16383, classes=["ack:random"])
         ack_check(ctx, ranges, delay)
+        if len(ranges) >= 2:
+            ack_check(ctx, ranges, delay, 1 + (delay + len(ranges)) % len(ranges))
         if ctx.want_sample():
             ctx.sample({"ack_ranges": ranges[:6], "n": len(ranges), "delay": delay})
 
@@ -1035,7 +1043,7 @@ def replay(ctx, case):
                 ctx.violation("decode-undocumented-error-%s-%s" % (d[0], type(e).__name__), repr(e), case)
         return
     if k == "ack":
-        ack_check(ctx, [tuple(x) for x in case["ranges"]], case["delay"])
+        ack_check(ctx, [tuple(x) for x in case["ranges"]], case["delay"], case.get("max_ranges"))
     elif k == "bytes":
         import aioquic.quic.packet as P
         from aioquic.buffer import Buffer
